@@ -157,8 +157,8 @@ def execute(scn):
         # (1b) no exception other than failure to establish the connection
         if call['exc'] is not None:
             ex = call['exc']
-            if isinstance(ex, ConnectionException) and (refused or any(a in ('reset', 'close') for a in prior_acts(ops, call['index']))):
-                continue
+            if isinstance(ex, ConnectionException) and refused:
+                continue            # failure to establish the connection is excepted by the statement
             where = '?'
             tb = ex.__traceback__
             while tb is not None:
